@@ -21,6 +21,7 @@ def parse : List String → Option Op
       else do pure (.generate (← optBytes ent) (← optBytes blind))
   | ["sanity", pub] => do pure (.sanity (← bytesOfHex pub))
   | ["g14"] => some .g14
+  | ["staleerr", _] => some .env
   | _ => none
 
 def showOpt : Option (List UInt8) → String
@@ -34,6 +35,7 @@ def render : Out → String
   | .sanity l1 l2 =>
       s!"{if l1 then "0" else "-1"} | {match l2 with | some true => "0" | some false => "-1" | none => "?"}"
   | .g14 => "g14 rfc3526"
+  | .env => "env"
 
 def step (_ : Unit) (toks : List String) : Unit × String :=
   match parse toks with
